@@ -168,7 +168,7 @@ impl Property for C15 {
         "C15"
     }
     fn rule() -> String {
-        "Generated: two-level (thorough also three-level) delegation trees: a parent step authorises K and its evidence file is a layout \
+        "Generated: two-level (thorough also three-level) delegation trees: a parent step authorises K (or two functionaries with threshold 2, each filing a copy) and its evidence file is a layout \
          signed by K; inner layouts have 0-2 steps with their own functionaries and links in <step>.<keyid8>/; one fault is injected into one \
          delegated step: inner layout signed by another functionary / by nobody / by K plus others; inner expiry in the past; inner links \
          placed in the parent directory or under another key's directory; an inner link removed, tampered, replaced by an unauthorised \
@@ -189,7 +189,7 @@ impl Property for C15 {
     }
     fn strategy(tier: Tier) -> BoxedStrategy<Spec> {
         let depth = tier.pick(1usize, 2usize);
-        let cfg = Cfg { min_steps: 1, max_steps: 3, max_owners: 1, sub_depth: depth, ..Cfg::basic() };
+        let cfg = Cfg { min_steps: 1, max_steps: 3, max_owners: 1, sub_depth: depth, multi_sub: true, max_threshold: 2, ..Cfg::basic() };
         (valid_world(cfg), fault_strategy(), any::<u8>(), proptest::option::of("[a-z]{1,6}"), any::<bool>(), prop_oneof![3 => Just(false), 1 => Just(true)])
             .prop_filter_map("has a delegated step", |((mut world, owners), fault, which, step_name, match_link, deeper)| {
                 for f in world.links.iter_mut() {
@@ -262,6 +262,9 @@ impl Property for C15 {
             d(&w)
         };
         o.class(format!("depth:{}", depth));
+        if w.layout.steps.iter().any(|s| s.threshold >= 2 && w.links.iter().filter(|f| f.step == s.name && matches!(f.body, Body::Sub { .. })).count() >= 2) {
+            o.class("two-functionaries-delegate");
+        }
         if !j.violated.is_empty() {
             o.class("model:violated");
             if r.is_ok() {
@@ -274,7 +277,8 @@ impl Property for C15 {
             let _ = std::fs::remove_dir_all(&cdir);
             o.evals = 2;
             if matches!(cr, Some(Ok(_))) {
-                o.nontrivial(format!("{}|{}|{}|{}|{}", fault_name, depth, inner_steps, w.layout.steps.len(), spec.match_link));
+                let shape: Vec<(u32, usize)> = w.layout.steps.iter().map(|s| (s.threshold, s.pubkeys.len())).collect();
+                o.nontrivial(format!("{}|{}|{}|{:?}|{}|{}", fault_name, depth, inner_steps, shape, spec.match_link, subs.len()));
             } else {
                 o.class("control-not-ok");
             }
